@@ -2,11 +2,19 @@ SPECIFICATION TSpec
 CONSTANTS
   Gor <- CallRange
   MaxCalls = 64
-  Addrs = {"D", "A", "B"}
+  Eps = {"D", "E", "F"}
+  Svcs = {"dir", "e", "f", "xe", "te", "ef", "t", "x", "tx"}
+  Adv <- AdvTrace
   MaxReq = 1
-  ConnLoss = TRUE
+  MaxLoss = 0
+  AuthMayRefuse = TRUE
   Dev_RUnlockUnderWriteLock = FALSE
+  Dev_NilChannelWhenAllSkipped = FALSE
+  Dev_AuthFailureLeaksConnection = FALSE
+  Dev_DeadClientStaysInPool = FALSE
+  Dev_PoolKeyedByAdvertised = FALSE
+  Dev_CloserBeforeInsert = FALSE
 CONSTRAINT Track
-INVARIANTS NoBadUnlock MutexOK AtMostOneConnPerEndpoint
+INVARIANTS ProcessAlive NoBadUnlock MutexOK RequestOutcome ReturnedIsOpen AtMostOneConnPerEndpoint ExtraConnectionsClosed PoolHoldsLiveClients AllGetTheSharedClient
 POSTCONDITION Accepted
 CHECK_DEADLOCK FALSE
